@@ -205,6 +205,9 @@ func annotationMatrix(seed int64, full bool) (method []string, controller []stri
 	return
 }
 
+// lines put in FRONT of a method's doc block (free text that is empty, blank or odd)
+var leadLineSets = [][]string{{"//"}, {"//", "//"}, {"// "}, {"//\t"}, {"//", "// text", "//"}, {"//", "// @Description"}, {"// \u00a0"}, {"//", "//", "// @Description x", "//"}}
+
 var badControllerAnnotations = []string{
 	"// @Route({)", "// @Tag()", "// @Security(x, {scopes:[null]})", "// @Route(/a)\n// @Route(/b)", "// @Tag(A)\n// @Tag(B)", "// @Method(GET)", "// @Route(/x, {a:1})",
 	"// @Security(apiKeyAuth, {scopes:'x'})", "// @Description", "// @Route(" + strings.Repeat("/{p}", 40) + ")", "// @Security()", "// @Hidden",
